@@ -355,20 +355,37 @@ def checkProbe (env : RegexEnv) (d : Dir) (dflt : Disp) (stmts : List RStmt) (r 
         | none => some "aspath-regex-ignored"
         | some _ => some c
 
-def firstSome {α} (f : Nat → α → Option String) : Nat → List α → Option (Nat × String)
-  | _, [] => none
-  | i, a :: r => match f i a with | some c => some (i, c) | none => firstSome f (i + 1) r
+def isRpkiCond : RCond → Bool
+  | .plain (.rpki _) => true
+  | _ => false
 
-def checkDir (env : RegexEnv) (d : Dir) (dump : Dump) (asg : Option DAsg) (rs : List Route) (obs : Option (List PRes)) : Option (Nat × String) :=
+/-- every failing probe of a list, with its index -/
+def allFails {α} (f : α → Option String) : Nat → List α → List (Nat × String)
+  | _, [] => []
+  | i, a :: r => (match f a with | some c => [(i, c)] | none => []) ++ allFails f (i + 1) r
+
+/-- clauses of findings that are recorded as open: such a failure must not hide another one -/
+def openClass (c : String) : Bool := c == "aspath-regex-ignored"
+
+/-- the failure reported for a step: the first one that is not of an open class, else the first -/
+def pickFail (l : List (Nat × String)) : Option (Nat × String) :=
+  match l.find? (fun f => !openClass f.2) with
+  | some f => some f
+  | none => l.head?
+
+/-- all failures of one direction: every probe is judged -/
+def dirFails (env : RegexEnv) (d : Dir) (dump : Dump) (asg : Option DAsg) (rs : List Route) (obs : Option (List PRes)) : List (Nat × String) :=
   match asg, obs with
-  | none, none => none
+  | none, none => []
   | some a, some ps =>
-      if ps.length ≠ rs.length then some (0, "assignment-listing")
+      if ps.length ≠ rs.length then [(0, "assignment-listing")]
       else
         match resolveAsg dump a with
-        | none => some (0, "dangling-reference")
-        | some stmts => firstSome (fun _ rp => checkProbe env d a.dflt stmts rp.1 rp.2) 0 (rs.zip ps)
-  | _, _ => some (0, "assignment-listing")
+        | none => [(0, "dangling-reference")]
+        | some stmts =>
+            (if a.rpki != stmts.any (fun s => s.conds.any isRpkiCond) then [(0, "needs-rpki-flag")] else []) ++
+            allFails (fun rp => checkProbe env d a.dflt stmts rp.1 rp.2) 0 (rs.zip ps)
+  | _, _ => [(0, "assignment-listing")]
 
 /-! ## referenced objects stay what they were -/
 
@@ -393,6 +410,35 @@ def refsStable (prev cur : Dump) : Bool :=
     | (some pa, some ca) => ca.pols.all fun n =>
         !pa.pols.contains n || (lookupPol prev n == lookupPol cur n && (lookupPol cur n).isSome)
     | _ => true)
+
+def mapOpt {α β} (f : α → Option β) : List α → Option (List β)
+  | [] => some []
+  | a :: r =>
+      match f a, mapOpt f r with
+      | some b, some bs => some (b :: bs)
+      | _, _ => none
+
+/-- what the names in a statement resolve to, in condition order -/
+def expectedHeldSets (d : Dump) (st : DStmt) : Option (List SetObj) := mapOpt (fun k => lookupSet d k.1 k.2) (setRefs st)
+
+/-- the statement listed under a name, with the sets its names resolve to -/
+def heldStmtOf (d : Dump) (n : String) : Option (DStmt × List SetObj) :=
+  match lookupStmt d n with
+  | none => none
+  | some st => (expectedHeldSets d st).map (fun objs => (st, objs))
+
+def expectedHeldStmts (d : Dump) (p : DPol) : Option (List (DStmt × List SetObj)) := mapOpt (heldStmtOf d) p.stmts
+
+def zipAll {α β} (f : α → β → Bool) : List α → List β → Bool
+  | [], [] => true
+  | a :: as, b :: bs => f a b && zipAll f as bs
+  | _, _ => false
+
+/-- no stale object: the set objects every listed statement holds, the statements every listed
+    policy holds, and the sets those hold, are the objects currently listed under their names -/
+def heldCurrent (d : Dump) : Bool :=
+  zipAll (fun st objs => expectedHeldSets d st == some objs) d.stmts d.heldSets &&
+  zipAll (fun p hs => expectedHeldStmts d p == some hs) d.pols d.heldStmts
 
 def isAsgOp (d : Dir) : Op → Bool
   | .asgAdd d' .. => d' = d
@@ -430,7 +476,97 @@ def wellKnownOk (op : Op) (res : Res) (cur : Dump) : Bool :=
         | _ => true
   | _, _ => true
 
-def emptyDump : Dump := ⟨[], [], [], none, none⟩
+/-! ## what was asked is what is listed -/
+
+/-- the patterns a community-set member may be listed as: itself, itself anchored, or — for a
+    decimal number or a well-known name — the anchored `high:low` form of that community -/
+def commForms (s : String) : List String :=
+  [s, "^" ++ s ++ "$"] ++
+  (match decimalU32? s with | some v => [s!"^{v / 65536}:{v % 65536}$"] | none => []) ++
+  (match wellKnownValue s.toLower with | some v => [s!"^{v / 65536}:{v % 65536}$"] | none => [])
+
+/-- a requested element (of the set's kind) is a member of the listed set -/
+def elemStored (k : SetKind) (obj : SetObj) (e : Elem) : Bool :=
+  match k, e, obj with
+  | .prefix, .pfx p, .prefix es z z6 =>
+      if p.addr.val == 0 && p.mask == 0 then (if p.addr.v6 then z6 else z) == some (p.lo, p.hi)
+      else es.contains p
+  | .prefix, .pfx _, _ => false
+  | .neighbor, .nbr a m, .neighbor l => l.contains (a, m)
+  | .neighbor, .nbr _ _, _ => false
+  | .aspath, .single x, .aspath ss _ => ss.contains x
+  | .aspath, .single _, _ => false
+  | .aspath, .pat s, .aspath _ rs => rs.contains s
+  | .aspath, .pat _, _ => false
+  | .comm, .pat s, .strs l => (commForms s).any (fun f => l.contains f)
+  | .comm, .pat _, _ => false
+  | .ext, .pat s, .strs l => l.contains s
+  | .ext, .pat _, _ => false
+  | .large, .pat s, .strs l => l.contains s
+  | .large, .pat _, _ => false
+  | _, _, _ => true
+
+/-- the listed global assignment of a direction -/
+def slotOf (d : Dump) : Dir → Option DAsg
+  | .imp => d.imp
+  | .exp => d.exp
+
+def isZeroReq (v6 : Bool) (r : Nat × Nat) : Elem → Bool
+  | .pfx p => p.addr.v6 == v6 && p.addr.val == 0 && p.mask == 0 && p.lo == r.1 && p.hi == r.2
+  | _ => false
+
+/-- every member of the listed set was asked for (what a REPLACE must leave: nothing of the old
+    contents) -/
+def onlyRequested (k : SetKind) (es : List Elem) (obj : SetObj) : Bool :=
+  match k, obj with
+  | .prefix, .prefix l z z6 =>
+      l.all (fun p => es.contains (.pfx p)) && (z.all fun r => es.any (isZeroReq false r)) && (z6.all fun r => es.any (isZeroReq true r))
+  | .neighbor, .neighbor l => l.all (fun x => es.contains (.nbr x.1 x.2))
+  | .aspath, .aspath ss rs => ss.all (fun x => es.contains (.single x)) && rs.all (fun x => es.contains (.pat x))
+  | .comm, .strs l => l.all (fun f => es.any (fun e => match e with | .pat x => (commForms x).contains f | _ => false))
+  | .ext, .strs l => l.all (fun x => es.contains (.pat x))
+  | .large, .strs l => l.all (fun x => es.contains (.pat x))
+  | _, _ => false
+
+def actsStored (a listed : Actions) : Bool :=
+  (a.nexthop.isNone || listed.nexthop == a.nexthop) && (a.community.isNone || listed.community == a.community) &&
+  (a.localPref.isNone || listed.localPref == a.localPref) && (a.med.isNone || listed.med == a.med) &&
+  (a.asPrepend.isNone || listed.asPrepend == a.asPrepend) && (a.ext.isNone || listed.ext == a.ext) &&
+  (a.large.isNone || listed.large == a.large) && (a.origin.isNone || listed.origin == a.origin)
+
+/-- after a successful add / replace, everything that was asked for is listed: every element of
+    the set (for a prefix set every (prefix, range)), every condition, action and the disposition
+    of the statement, the statements of the policy (at its end), the assignment's name, default
+    and policies (new ones first) -/
+def requestStored (op : Op) (res : Res) (cur : Dump) : Bool :=
+  match op, res with
+  | .setAdd k n es, .ok =>
+      (match lookupSet cur k n with
+       | some obj => es.all (elemStored k obj)
+       | none => false)
+  | .setReplace k n es, .ok =>
+      (match lookupSet cur k n with
+       | some obj => es.all (elemStored k obj) && onlyRequested k es obj
+       | none => false)
+  | .stmtAdd n cs d a, .ok =>
+      (match lookupStmt cur n with
+       | some st => cs.all (fun c => st.conds.contains c) && (d.isNone || st.disp == d) && actsStored a st.acts
+       | none => false)
+  | .polAdd n ss, .ok =>
+      (match lookupPol cur n with
+       | some p => ss.isSuffixOf p.stmts
+       | none => false)
+  | .asgAdd d n df ps, .ok =>
+      (match slotOf cur d with
+       | some a => a.name == n && a.dflt == df && ps.isPrefixOf a.pols
+       | none => false)
+  | .asgSet d n df ps, .ok =>
+      (match slotOf cur d with
+       | some a => a.name == n && a.dflt == df && a.pols == ps
+       | none => false)
+  | _, _ => true
+
+def emptyDump : Dump := ⟨[], [], [], none, none, [], []⟩
 
 def checkSteps (env : RegexEnv) (rs : List Route) :
     Nat → Dump → Option (List PRes) → Option (List PRes) → List Op → Obs → Verdict
@@ -438,16 +574,15 @@ def checkSteps (env : RegexEnv) (rs : List Route) :
   | i, _, _, _, _ :: _, [.panic] => .fail i 0 "crud-panic"
   | i, prev, pi, pe, op :: ops, .step res dump oi oe :: obs =>
       if !refsStable prev dump then .fail i 0 "referenced-object-changed"
+      else if !heldCurrent dump then .fail i 0 "held-object-stale"
+      else if !requestStored op res dump then .fail i 0 "stored-differs-from-request"
       else if !wellKnownOk op res dump then .fail i 0 "wellknown-community-value"
       else if !isAsgOp .imp op && oi ≠ pi then .fail i 0 "probe-changed"
       else if !isAsgOp .exp op && oe ≠ pe then .fail i 0 "probe-changed"
       else
-        match checkDir env .imp dump dump.imp rs oi with
+        match pickFail (dirFails env .imp dump dump.imp rs oi ++ dirFails env .exp dump dump.exp rs oe) with
         | some (j, c) => .fail i j c
-        | none =>
-            match checkDir env .exp dump dump.exp rs oe with
-            | some (j, c) => .fail i j c
-            | none => checkSteps env rs (i + 1) dump oi oe ops obs
+        | none => checkSteps env rs (i + 1) dump oi oe ops obs
   | i, _, _, _, _, _ => .fail i 0 "observation-shape"
 
 /-- the C14 reference checker -/
